@@ -140,6 +140,8 @@ func (sb *sandbox) materialise(want *rstate) error {
 			if err := os.WriteFile(p, contentBytes(c), 0o644); err != nil {
 				return err
 			}
+			// same size (all contents have one length) and same mtime for every version of a file
+			os.Chtimes(p, fixedTime, fixedTime)
 		}
 	}
 	// other files: remove those not wanted (deepest first), then write
